@@ -173,58 +173,7 @@ func c11(c *an.Check) {
 		an.FactReq("len(data)==32", func(s *an.State, x, y ssa.Value, r an.Rel) bool {
 			return r == an.EQ && an.IsIntConst(y, 32) && an.LenOf(s, x, func(a ssa.Value) bool { return an.IsParam(a, 0) })
 		})}})
-	usk := p.Func("crypto", "", "UnmarshalEd25519PrivateKey")
-	c.Gate(an.GateSpec{Construct: "crypto.UnmarshalEd25519PrivateKey success-return", Fn: usk, Sink: successReturn, Reqs: []an.Req{
-		an.AnyOf("64 bytes, or 96 bytes with a matching redundant public key",
-			an.FactReq("len(data)==64", func(s *an.State, x, y ssa.Value, r an.Rel) bool {
-				return r == an.EQ && an.IsIntConst(y, 64) && an.LenOf(s, x, func(a ssa.Value) bool { return an.IsParam(a, 0) })
-			}),
-			an.Req{Name: "len(data)==96 and ConstantTimeCompare(pk, redundant) != 0", Holds: func(s *an.State, at ssa.Instruction) bool {
-				l96 := s.AnyFact(func(s *an.State, x, y ssa.Value, r an.Rel) bool {
-					return r == an.EQ && an.IsIntConst(y, 96) && an.LenOf(s, x, func(a ssa.Value) bool { return an.IsParam(a, 0) })
-				})
-				cmp := s.AnyFact(func(s *an.State, x, y ssa.Value, r an.Rel) bool {
-					return r&an.EQ == 0 && an.IsIntConst(y, 0) && an.ResultCallTo(x, an.X("crypto/subtle", "", "ConstantTimeCompare")) != nil
-				})
-				return l96 && cmp
-			}}),
-		{Name: "the key holds exactly 64 bytes", Holds: func(s *an.State, at ssa.Instruction) bool {
-			// stored key bytes: the parameter itself (len==64 path) or a fresh 64-byte copy
-			for _, b := range usk.Blocks {
-				for _, ins := range b.Instrs {
-					if st, ok := ins.(*ssa.Store); ok {
-						if f := an.FieldOfAddr(st.Addr); f != nil && f.Name() == "k" {
-							v := s.Canon(an.ConvOf(st.Val))
-							if n, ok := s.FixedLen(v); ok && n == 64 {
-								return true
-							}
-							if an.IsParam(v, 0) {
-								return s.AnyFact(func(s *an.State, x, y ssa.Value, r an.Rel) bool {
-									return r == an.EQ && an.IsIntConst(y, 64) && an.LenOf(s, x, func(a ssa.Value) bool { return an.IsParam(a, 0) })
-								})
-							}
-						}
-					}
-				}
-			}
-			return false
-		}},
-	}})
-	// the 96-byte form keeps the first 64 bytes (seed‖public key), not some other window
-	okCopy, nCopy := false, 0
-	if usk != nil {
-		for _, b := range usk.Blocks {
-			for _, ins := range b.Instrs {
-				if cc, ok := ins.(*ssa.Call); ok && an.BuiltinName(cc) == "copy" {
-					nCopy++
-					if src, ok := cc.Call.Args[1].(*ssa.Slice); ok && an.IsParam(src.X, 0) && (src.Low == nil || an.IsIntConst(src.Low, 0)) && an.IsIntConst(src.High, 64) {
-						okCopy = true
-					}
-				}
-			}
-		}
-	}
-	c.Require(okCopy && nCopy == 1, "PROVENANCE", "crypto.UnmarshalEd25519PrivateKey keeps data[:64] of the 96-byte form", usk, "", nCopy, "copy(newKey, data[:PrivateKeySize])", "the 64 key bytes kept from the 96-byte form are not the first 64 bytes (seed‖public key)")
+	usk := ed25519PrivateKeyDecodeGates(c)
 	// and the redundancy check compares data[32:64] with data[64:]
 	okCmp := false
 	if usk != nil {
@@ -316,11 +265,16 @@ func c11(c *an.Check) {
 		}}}})
 	// ---- the generated codec of package crypto (the protobuf wrappers decode through it)
 	pbCodecSanity(c, func(rel string) bool { return rel == "crypto" })
+	privateKeyRawIsCopy(c)
 	// ---- textual forms (base58 / PEM strings): a key or an error, never neither for non-empty input
 	confparseKeyGates(c)
 	// ---- PANIC
-	if bce := peerBCE(c, "./crypto", "./keypem"); bce != nil {
+	if bce := peerBCE(c, "./crypto", "./keypem", "./peer"); bce != nil {
 		var fns []*ssa.Function
+		// the peer-id string form embeds the public key: its decode chain belongs to "decoding arbitrary text as a key"
+		if dec := one(pkgFuncsWhere(p, "peer", func(f *ssa.Function) bool { return callsAny(f, cUvarint) })); dec != nil {
+			fns = append(fns, dec, p.Func("peer", "", "IDB58Decode"), p.Func("peer", "", "IDFromBytes"), p.Func("peer", "ID", "ExtractPublicKey"))
+		}
 		for _, f := range append(p.PkgFuncs("crypto"), p.PkgFuncs("keypem")...) {
 			if f.Parent() == nil && !p.IsGenerated(f.Pos()) {
 				fns = append(fns, f)
@@ -341,4 +295,87 @@ func init() {
 		Explain:     "Decides: (SIBLING) the two key-type registries (constant keys of the map literals) and the per-value abstract evaluation of GenerateKeyPairWithReader support the same key types; (R1) UnmarshalPublicKey/PrivateKey succeed only past protobuf decode and a successful registry lookup for the message's own key type, calling the registered unmarshaller on the message's own data; (MIRROR) the marshal side encodes {KeyType: k.Type(), Data: k.Raw()}; UnmarshalEd25519PublicKey succeeds only for 32 bytes; UnmarshalEd25519PrivateKey only for 64 bytes or 96 bytes whose redundant public key compares equal, storing exactly 64 key bytes; (WHO) Ed25519PrivateKey.k is written only by the three length-safe constructors; PEM marshal/parse agree on the two block types and wrap the protobuf encodings; (PANIC) every top-level function of crypto and keypem has no undischarged panic site. (GATE) the textual parsers (confparse) return a key only from the PEM wrapper or base58+protobuf decoding and (nil,nil) only for empty input; (NILDEREF) over all key codec functions.",
 		NotCov:      "round-trip equality as a value statement (follows from the mirrors under trusted codecs); confparse wrappers are decided under C38.",
 		Assumptions: commonAssumptions})
+}
+
+
+// ed25519PrivateKeyDecodeGates: the Ed25519 private-key decoder accepts only the 64-byte form or the legacy 96-byte form
+// with a matching redundant public key, and keeps exactly seed‖public key (shared by C11 and by the properties whose
+// secret-key operations run on decoded keys: C12, C13, C14).
+func ed25519PrivateKeyDecodeGates(c *an.Check) *ssa.Function {
+	p := c.P
+	usk := p.Func("crypto", "", "UnmarshalEd25519PrivateKey")
+	c.Gate(an.GateSpec{Construct: "crypto.UnmarshalEd25519PrivateKey success-return", Fn: usk, Sink: successReturn, Reqs: []an.Req{
+		an.AnyOf("64 bytes, or 96 bytes with a matching redundant public key",
+			an.FactReq("len(data)==64", func(s *an.State, x, y ssa.Value, r an.Rel) bool {
+				return r == an.EQ && an.IsIntConst(y, 64) && an.LenOf(s, x, func(a ssa.Value) bool { return an.IsParam(a, 0) })
+			}),
+			an.Req{Name: "len(data)==96 and ConstantTimeCompare(pk, redundant) != 0", Holds: func(s *an.State, at ssa.Instruction) bool {
+				l96 := s.AnyFact(func(s *an.State, x, y ssa.Value, r an.Rel) bool {
+					return r == an.EQ && an.IsIntConst(y, 96) && an.LenOf(s, x, func(a ssa.Value) bool { return an.IsParam(a, 0) })
+				})
+				cmp := s.AnyFact(func(s *an.State, x, y ssa.Value, r an.Rel) bool {
+					return r&an.EQ == 0 && an.IsIntConst(y, 0) && an.ResultCallTo(x, an.X("crypto/subtle", "", "ConstantTimeCompare")) != nil
+				})
+				return l96 && cmp
+			}}),
+		{Name: "the key holds exactly 64 bytes", Holds: func(s *an.State, at ssa.Instruction) bool {
+			// stored key bytes: the parameter itself (len==64 path) or a fresh 64-byte copy
+			for _, b := range usk.Blocks {
+				for _, ins := range b.Instrs {
+					if st, ok := ins.(*ssa.Store); ok {
+						if f := an.FieldOfAddr(st.Addr); f != nil && f.Name() == "k" {
+							v := s.Canon(an.ConvOf(st.Val))
+							if n, ok := s.FixedLen(v); ok && n == 64 {
+								return true
+							}
+							if an.IsParam(v, 0) {
+								return s.AnyFact(func(s *an.State, x, y ssa.Value, r an.Rel) bool {
+									return r == an.EQ && an.IsIntConst(y, 64) && an.LenOf(s, x, func(a ssa.Value) bool { return an.IsParam(a, 0) })
+								})
+							}
+						}
+					}
+				}
+			}
+			return false
+		}},
+	}})
+	// the 96-byte form keeps the first 64 bytes (seed‖public key), not some other window
+	okCopy, nCopy := false, 0
+	if usk != nil {
+		for _, b := range usk.Blocks {
+			for _, ins := range b.Instrs {
+				if cc, ok := ins.(*ssa.Call); ok && an.BuiltinName(cc) == "copy" {
+					nCopy++
+					if src, ok := cc.Call.Args[1].(*ssa.Slice); ok && an.IsParam(src.X, 0) && (src.Low == nil || an.IsIntConst(src.Low, 0)) && an.IsIntConst(src.High, 64) {
+						okCopy = true
+					}
+				}
+			}
+		}
+	}
+	c.Require(okCopy && nCopy == 1, "PROVENANCE", "crypto.UnmarshalEd25519PrivateKey keeps data[:64] of the 96-byte form", usk, "", nCopy, "copy(newKey, data[:PrivateKeySize])", "the 64 key bytes kept from the 96-byte form are not the first 64 bytes (seed‖public key)")
+	return usk
+}
+
+
+// privateKeyRawIsCopy: exporting a private key hands out a copy — callers wipe exported secrets (scrub.Scrub), which must
+// not reach into the live key.
+func privateKeyRawIsCopy(c *an.Check) {
+	p := c.P
+	raw := p.Func("crypto", "Ed25519PrivateKey", "Raw")
+	kF := fv(c, "crypto", "Ed25519PrivateKey", "k")
+	ok, why := raw != nil && kF != nil, "unresolved anchor"
+	if ok {
+		for _, b := range raw.Blocks {
+			if ret, isRet := b.Instrs[len(b.Instrs)-1].(*ssa.Return); isRet {
+				for r := range an.AliasRoots(ret.Results[0]) {
+					if an.IsFieldLoad(r, kF) {
+						ok, why = false, "Raw() returns the key's own storage: wiping the exported bytes zeroes the live private key"
+					}
+				}
+			}
+		}
+	}
+	c.Require(ok, "OWNERSHIP", "crypto.Ed25519PrivateKey.Raw returns a copy of the key bytes", raw, "", 1, "returned slice does not alias the key field", why)
 }
